@@ -60,12 +60,34 @@ def _tlc(args, cwd, env=None, timeout=1800):
     e["JAVA_TOOL_OPTIONS"] = (e.get("JAVA_TOOL_OPTIONS", "") + " -Xss512m").strip()
     if env:
         e.update(env)
-    try:
-        r = subprocess.run(["tlc"] + args, cwd=cwd, env=e, stdout=subprocess.PIPE, stderr=subprocess.STDOUT, timeout=timeout)
-    except subprocess.TimeoutExpired:
-        subprocess.run(["pkill", "-f", "tlc2.TL[C]"])
-        raise Infra("tlc timed out: %s" % " ".join(args))
-    return r.returncode, r.stdout.decode(errors="replace")
+    # run under a watchdog: time limit and a cap on the size of TLC's state directory (a mis-sized model must not fill the disk)
+    md = args[args.index("-metadir") + 1] if "-metadir" in args else None
+    outf = tempfile.TemporaryFile()
+    p = subprocess.Popen(["tlc"] + args, cwd=cwd, env=e, stdout=outf, stderr=subprocess.STDOUT, start_new_session=True)
+    t0 = time.time()
+    why = None
+    while p.poll() is None:
+        time.sleep(2)
+        if time.time() - t0 > timeout:
+            why = "timed out after %ds" % timeout
+        elif md and int(time.time() - t0) % 20 < 2 and os.path.isdir(md):
+            try:
+                sz = int(subprocess.run(["du", "-sm", md], stdout=subprocess.PIPE).stdout.split()[0])
+            except Exception:
+                sz = 0
+            if sz > 12000:
+                why = "state directory exceeded 12 GB"
+        if why:
+            try:
+                os.killpg(p.pid, 9)
+            except Exception:
+                pass
+            p.wait()
+            if md:
+                shutil.rmtree(md, ignore_errors=True)
+            raise Infra("tlc %s: %s" % (why, " ".join(args)))
+    outf.seek(0)
+    return p.returncode, outf.read().decode(errors="replace")
 
 
 def stage_specs(sdir):
